@@ -61,14 +61,14 @@ func c05iRun(c c05iCase) (string, string) {
 			}
 			s49, _ := get(o.Msg, "49")
 			s56, _ := get(o.Msg, "56")
-			// before a session has accepted a Logon it has nobody to mirror (C06/C07 judge what it sends then)
-			if !logged && s49 == "" && s56 == "" {
+			// before a session has seen a Logon it has nobody to mirror (C06/C07 judge what it sends then)
+			if !logged && s49 == "" && s56 == "" && !(k == 'b' && c.RefuseB) {
 				continue
 			}
 			if k == 'b' && c.RefuseB {
-				// the refused counterparty is answered with its own identifiers or with none
-				if (s49 != "" && s49 != ids[k][1]) || (s56 != "" && s56 != ids[k][0]) {
-					return "outbound-carries-other-sessions-identifiers", fmt.Sprintf("session %c (refused): %s", k, show(o.Msg))
+				// the refused counterparty is answered with the identifiers mirrored from its own Logon
+				if s49 != ids[k][1] || s56 != ids[k][0] {
+					return "refusal-without-the-refused-peers-identifiers", fmt.Sprintf("session %c (refused): %s", k, show(o.Msg))
 				}
 				continue
 			}
